@@ -1177,6 +1177,15 @@ Theorem C03_gen_begins_redef_runs :
                exb_var 96 (0%Z :: 2%Z :: nil) 4
                :: exb_var 97 (1%Z :: 2%Z :: nil) 3 :: exb_var 98 (0%Z :: 1%Z :: nil) 5 :: nil
            |} 0 0 4 4 (Header.l_begin_rec (exr_lay 0 100 512 4)) (exr_lay 0 100 512 4)
-           (false :: true :: nil) = true.
+           (false :: true :: nil) = true /\
+         begins_agree_redef
+           {|
+             Header.h_format := 2;
+             Header.h_numrecs := 3;
+             Header.h_dims := exb_dims;
+             Header.h_gatts := nil;
+             Header.h_vars :=
+               exb_var 97 (1%Z :: 2%Z :: nil) 3 :: exb_var 98 (0%Z :: 1%Z :: nil) 5 :: nil
+           |} 0 0 4 4 0 (exr_lay 0 100 512 4) (false :: true :: nil) = true.
 Proof. exact @gen_begins_redef_runs. Qed.
 Print Assumptions C03_gen_begins_redef_runs.
